@@ -151,6 +151,23 @@ def main(budget):
                     what = ("view %s of a %s-ordered memmap is rebuilt with other elements in the worker: %s" % (expr, order, line)) if pr.returncode == 0 else \
                            ("rebuilding the view %s of a %s-ordered memmap crashed the process (exit code %d) %s" % (expr, order, pr.returncode, pr.stderr.strip().splitlines()[-1:]))
                     return dict(violation=True, cases=cases, what=what, witness=dict(memmap_order=order, view=expr, shape=[5, 6], dtype="int64"))
+        # K23 (recorded finding): automatic memmapping keys the temporary file of a large array by the array's identity; inside one
+        # `with Parallel` block an array modified in place between two calls reaches the workers with its OLD contents
+        probe = ("import numpy as np, json, warnings\n"
+                 "warnings.simplefilter('ignore')\n"
+                 "from joblib import Parallel, delayed\n"
+                 "a = np.zeros(300000)\n"
+                 "with Parallel(n_jobs=2, backend='loky', max_nbytes='1M') as p:\n"
+                 "    first = p(delayed(np.sum)(a) for _ in range(2))\n"
+                 "    a += 1\n"
+                 "    second = p(delayed(np.sum)(a) for _ in range(2))\n"
+                 "print(json.dumps([float(first[0]), float(second[0]), float(a.sum())]))\n")
+        try:
+            pr = subprocess.run([sys.executable, "-c", probe], capture_output=True, text=True, timeout=180)
+            vals = json.loads(pr.stdout.strip().splitlines()[-1]) if pr.returncode == 0 and pr.stdout.strip() else None
+        except Exception:
+            vals = None
+        known["K23"] = ("second call in one with-block after `a += 1`: workers summed %r, the caller's array sums to %r" % (vals[1], vals[2])) if vals and vals[1] != vals[2] else False
         # K7 probe
         path = os.path.join(root, "k7.pkl")
         be = np.arange(4, dtype=">i4" if sys.byteorder == "little" else "<i4")
